@@ -4,6 +4,7 @@
    every interleaving of the two copy loops and the parent, every chunking, every read/write error,
    every verdict of the logger, at every point.  `wok_tr tr` = the sinks obeyed the io.Writer contract. *)
 From Hy Require Import lib.Bytes model.C06_Relay model.C06_Request proof.C06_Relay proof.C06_Request gen.ParamsC06.
+From Hy Require Import model.C06_Pool proof.C06_Pool model.C06_Close proof.C06_Close.
 From Coq Require Import List NArith ZArith.
 Import ListNotations.
 Local Open Scope N_scope.
@@ -205,3 +206,73 @@ Theorem C06_example_veto_run :
     In ACloseConn veto_run /\ sRx s = 5 /\ sTx s = 1.
 Proof. exact veto_run_ok. Qed.
 Print Assumptions C06_example_veto_run.
+
+(* ---- isolation between relays.  The LTS above is ONE relay and keeps the chunk a loop is forwarding in the loop's
+   program counter.  In the code the chunk sits in a pooled buffer (copyBufPool), the only state the relays of a server
+   share.  model/C06_Pool.v is the world of all copy loops (any number of relays, started at any time) over a memory of
+   buffers: a Read stores into the loop's buffer, a Write hands out what that buffer holds at that moment, Get/Put move
+   buffers between the loops and the pool as copyBufferLog does (Get on entry, deferred Put when the loop returns).
+   In every run of that world, from a server that has not relayed anything yet: a buffer held by a running loop (at
+   Read, LogTraffic or Write) is not in the pool and is held by no other running loop, and the pool holds no buffer twice. *)
+Theorem C06_pool_buffer_has_one_owner : forall tr w, wexec false w0 tr = Some w ->
+  NoDup (wfree w) /\
+  forall i si b, nth_error (slots w) i = Some si -> sbuf si = Some b -> running (spc si) = true ->
+    ~ In b (wfree w) /\
+    forall j sj, j <> i -> nth_error (slots w) j = Some sj -> sbuf sj = Some b -> running (spc sj) = false.
+Proof. exact pool_exclusive. Qed.
+Print Assumptions C06_pool_buffer_has_one_owner.
+
+(* Therefore what any one loop did - its Writes carrying the bytes the memory held when they were made - is a run of
+   the one-loop LTS, whatever the other relays did meanwhile: every per-loop theorem above holds for each relay of a
+   busy server. *)
+Theorem C06_pool_each_loop_is_a_relay_loop : forall tr w i s, wexec false w0 tr = Some w ->
+  nth_error (slots w) i = Some s -> lexec (sm s) (sd s) PRead (wproj i tr) = Some (spc s).
+Proof. exact pool_loop_run. Qed.
+Print Assumptions C06_pool_each_loop_is_a_relay_loop.
+
+(* In particular: with any number of other connections alive, what a loop's sink received is a prefix of what ITS
+   source produced (nothing of another connection injected), and all of it once the loop has returned nil. *)
+Theorem C06_relays_are_isolated : forall tr w i s, wexec false w0 tr = Some w ->
+  nth_error (slots w) i = Some s -> wok (wproj i tr) ->
+  (exists rest, lsrc (wproj i tr) = lsnk (wproj i tr) ++ rest) /\
+  (spc s = PRet GNil \/ spc s = PDone GNil -> lsrc (wproj i tr) = lsnk (wproj i tr)).
+Proof. exact pool_isolation. Qed.
+Print Assumptions C06_relays_are_isolated.
+
+(* The discipline is needed: if a buffer can go back to the pool while its loop is still running (the relay returning
+   both directions' buffers when the FIRST direction finishes), a run exists - rejected by the world above - in which a
+   loop read "AB", had it approved, and forwarded the late bytes "XX" of another connection. *)
+Theorem C06_pool_put_must_wait_for_the_loop :
+  wexec false w0 early_put_run = None /\
+  exists w, wexec true w0 early_put_run = Some w /\ wok (wproj 1 early_put_run) /\
+    lsrc (wproj 1 early_put_run) = [x41; x42] /\ lsnk (wproj 1 early_put_run) = [x58; x58] /\
+    ~ exists rest, lsrc (wproj 1 early_put_run) = lsnk (wproj 1 early_put_run) ++ rest.
+Proof. exact pool_early_put_injects. Qed.
+Print Assumptions C06_pool_put_must_wait_for_the_loop.
+
+(* Non-vacuity: three loops of two generations, the third reusing the buffer the first put back while the second is
+   still forwarding; every sink holds its own stream. *)
+Theorem C06_example_pool_reuse : exists w, wexec false w0 reuse_run = Some w /\
+  lsnk (wproj 0 reuse_run) = [x58] /\ lsnk (wproj 1 reuse_run) = [x41; x42] /\ lsnk (wproj 2 reuse_run) = [x43] /\
+  wfree w = [] /\ wfresh w = 2.
+Proof. exact reuse_run_ok. Qed.
+Print Assumptions C06_example_pool_reuse.
+
+(* ---- the client closing its end (client.go:296, qstream.go:44).  For every application history between TCP() and
+   Close() - any Writes, any Reads or none at all, so also a fast-open connection that never became Established - the
+   server's end of the stream yields the request, every byte written behind it, and then EOF: the hypothesis under which
+   C06_target_gets_whole_client_payload delivers the whole payload (the Up loop reads the stream to its end). *)
+Theorem C06_client_close_is_graceful : forall write_req addr c0 h,
+  upstream_of conn_close write_req addr c0 h = (client_stream write_req addr (payload_of h), Some UEOF).
+Proof. exact close_is_graceful. Qed.
+Print Assumptions C06_client_close_is_graceful.
+
+(* The case distinction is not innocent: a Close that resets the stream of a connection whose response was never read
+   ends a fast-open one-way upload (TCP(); Write p; Close()) with a reset - the server's Read fails and undelivered
+   bytes are dropped - while every history with a Read, and every eager connection, still ends with EOF. *)
+Theorem C06_client_close_must_not_abort_unestablished : forall write_req addr p,
+  snd (upstream_of conn_close_abort_unestablished write_req addr (mkConn false []) [CWrite p]) = Some UReset /\
+  (forall c0 h, established c0 = true \/ In CRead h ->
+     snd (upstream_of conn_close_abort_unestablished write_req addr c0 h) = Some UEOF).
+Proof. exact abort_unestablished_loses. Qed.
+Print Assumptions C06_client_close_must_not_abort_unestablished.
